@@ -83,7 +83,7 @@ def popLeft : Toks Q → Tok Q × Toks Q
   | t :: l => (t, l)
 
 /-- `Tokens.operate((Add, Sub), Otype.UNARY)` with `CustomOperatorAdd/Sub.operate_unary`
-    (the five branches as written).  `ops ⊆ ["add", "sub"]`. -/
+    (the five branches as written: a sign is folded only in prefix position).  `ops ⊆ ["add", "sub"]`. -/
 def signPass (neg : Q → Q) (ops : List String) : Toks Q → Toks Q → Option (Toks Q)
   | left, [] => some left.reverse
   | left, .atom q :: r => signPass neg ops (.atom q :: left) r
@@ -102,9 +102,9 @@ def signPass (neg : Q → Q) (ops : List String) : Toks Q → Toks Q → Option 
           match rt with
           | .atom q => signPass neg ops (.atom (if isSub then neg q else q) :: l') r'
           | _ => none
-        else if rt.isOp "add" then
+        else if !lt.isAtom ∧ rt.isOp "add" then
           signPass neg ops (lt :: l') ((if isSub then .op "sub" else rt) :: r')
-        else if rt.isOp "sub" then
+        else if !lt.isAtom ∧ rt.isOp "sub" then
           signPass neg ops (lt :: l') ((if isSub then .op "add" else rt) :: r')
         else if !lt.isAtom ∧ rt.isAtom then
           match rt with
@@ -184,6 +184,8 @@ def E.eval (S : Sem Q) (binSem : String → Q → Q → Q) (preSem : String → 
     table, 1 = first binary pass) and the admitted operator / function keys. -/
 structure Grammar where
   lvl : String → Nat
+  /-- level of a key used as *prefix* operator (the sign ` - ` is also a binary key) -/
+  lvlPre : String → Nat
   okBin : String → Bool
   okPre : String → Bool
   okFn1 : String → Bool
@@ -191,7 +193,7 @@ structure Grammar where
 
 /-- Binding level of the top operator (0 for atoms, parentheses and functions). -/
 def E.top (G : Grammar) : E A → Nat
-  | .pre u _ => G.lvl u
+  | .pre u _ => G.lvlPre u
   | .bin o _ _ => G.lvl o
   | _ => 0
 
@@ -203,7 +205,7 @@ def E.WF (G : Grammar) : E A → Prop
   | .par e => e.WF G
   | .fn1 f a => G.okFn1 f = true ∧ a.WF G
   | .fn2 f a b => G.okFn2 f = true ∧ a.WF G ∧ b.WF G
-  | .pre u e => G.okPre u = true ∧ 0 < G.lvl u ∧ e.top G < G.lvl u ∧ e.WF G
+  | .pre u e => G.okPre u = true ∧ 0 < G.lvlPre u ∧ e.top G < G.lvlPre u ∧ e.WF G
   | .bin o l r => G.okBin o = true ∧ 0 < G.lvl o ∧ l.top G ≤ G.lvl o ∧ r.top G < G.lvl o ∧
       l.WF G ∧ r.WF G
 
@@ -213,7 +215,7 @@ def E.wf (G : Grammar) : E A → Bool
   | .par e => e.wf G
   | .fn1 f a => G.okFn1 f && a.wf G
   | .fn2 f a b => G.okFn2 f && a.wf G && b.wf G
-  | .pre u e => G.okPre u && decide (0 < G.lvl u) && decide (e.top G < G.lvl u) && e.wf G
+  | .pre u e => G.okPre u && decide (0 < G.lvlPre u) && decide (e.top G < G.lvlPre u) && e.wf G
   | .bin o l r => G.okBin o && decide (0 < G.lvl o) && decide (l.top G ≤ G.lvl o) &&
       decide (r.top G < G.lvl o) && l.wf G && r.wf G
 
@@ -221,7 +223,7 @@ def E.wf (G : Grammar) : E A → Bool
     whose top operator binds at level `≤ k` has been reduced to its value. -/
 def E.collapse (S : Sem Q) (binSem : String → Q → Q → Q) (preSem : String → Q → Q) (av : A → Q)
     (G : Grammar) (k : Nat) : E A → Toks Q
-  | .pre u e => if G.lvl u ≤ k then [.atom ((E.pre u e).eval S binSem preSem av)]
+  | .pre u e => if G.lvlPre u ≤ k then [.atom ((E.pre u e).eval S binSem preSem av)]
       else .op u :: e.collapse S binSem preSem av G k
   | .bin o l r => if G.lvl o ≤ k then [.atom ((E.bin o l r).eval S binSem preSem av)]
       else l.collapse S binSem preSem av G k ++ .op o :: r.collapse S binSem preSem av G k
